@@ -2201,6 +2201,7 @@ class QuaternionArray(np.ndarray):
         # Create the ndarray instance of type QuaternionArray. This will call
         # the standard ndarray constructor, but return an object of type
         # QuaternionArray.
+        q = np.ascontiguousarray(q, dtype=float)    # The buffer handed to the ndarray constructor is read as C-ordered
         obj = super(QuaternionArray, subtype).__new__(subtype, q.shape, float, q)
         obj.array = q
         obj.scalar_vector = order == 'H'
